@@ -700,6 +700,50 @@ pub fn wait_log(mut cond: impl FnMut(&[Rec]) -> bool, watchdog: Duration) -> Wai
 }
 
 impl Running {
+    /// One worker (the one in the first slot of the accept thread's handle list after `k` earlier faults) dies and is
+    /// replaced, `n` times in a row. Afterwards the handle list is no longer in index order, which is the state of any
+    /// long-running server that has seen a fault. The caller restarts the recording afterwards.
+    pub fn fault_prelude(&self, n: usize, workers: usize) -> Result<(), String> {
+        for round in 0..n {
+            let adopted_before = verif::with_log(|l| l.iter().filter(|r| matches!(&r.ev, verif::Ev::Interest { kind: "worker", .. })).count());
+            let adopted = || verif::with_log(|l| l.iter().filter(|r| matches!(&r.ev, verif::Ev::Interest { kind: "worker", .. })).count()) > adopted_before;
+            // bring the rotation to a known place: after a barrier ping the next connection goes to handles[next]
+            self.ctls[0].inner.lock().unwrap().panic_next_call = true;
+            let victim = Client::connect(&self.addrs[0], 0, b'F').map_err(|e| format!("prelude connect: {e}"))?;
+            let mut probes: Vec<Client> = Vec::new();
+            let t0 = Instant::now();
+            while !adopted() && t0.elapsed() < Duration::from_secs(10) {
+                if let Ok(mut c) = Client::connect(&self.addrs[0], 0, b'F') {
+                    let t1 = Instant::now();
+                    while c.poll_ack(Duration::from_millis(10)) == Ack::NotYet && t1.elapsed() < Duration::from_millis(200) {}
+                    probes.push(c);
+                }
+                thread::sleep(Duration::from_millis(10));
+            }
+            if !adopted() {
+                return Err(format!("prelude fault {round}: no replacement worker adopted within 10 s"));
+            }
+            victim.close();
+            for mut c in probes {
+                let cid = c.cid;
+                let served = c.served || c.poll_ack(Duration::from_millis(1)) == Ack::Served;
+                c.close();
+                if served {
+                    let _ = wait_log(|l| l.iter().any(|r| matches!(&r.ev, verif::Ev::User { kind: "end", a, .. } if *a == cid)), Duration::from_secs(3));
+                }
+            }
+            thread::sleep(Duration::from_millis(150));
+            let _ = self.accept_barrier(false);
+            thread::sleep(Duration::from_millis(50));
+            match self.accept_barrier(false) {
+                Ok(snap) if snap.handles.len() == workers => {}
+                Ok(snap) => return Err(format!("prelude fault {round}: {} handles after the replacement", snap.handles.len())),
+                Err(_) => return Err(format!("prelude fault {round}: accept thread did not answer")),
+            }
+        }
+        Ok(())
+    }
+
     /// Accept-side barrier: issue a command that is a no-op in the current state and wait until the
     /// accept thread has popped it and gone idle again. Returns the idle snapshot.
     pub fn accept_barrier(&self, paused: bool) -> Result<Snapshot, Waited> {
